@@ -392,6 +392,7 @@ def search(ctx):
 
 def replay(ctx, rep):
     from src.utilities.import_utilities import ImportUtilities as IU
+    ctx.driver = DRIVER  # vcheck sets it only on the normal path
     hits = []
     need_regen = any(v["case"].get("part") in ("regen", "table") for v in rep.get("violations", []))
     if need_regen:
